@@ -25,7 +25,6 @@ verus! {
 //@include env/vsum_impls.vs
 //@include env/cache_spec.vs
 //@include env/cache_lemmas.vs
-//@include env/remove_lemmas.vs
 
 pub mod tr {
 use super::*;
@@ -51,6 +50,14 @@ impl Clone for TransitionCycle {
 //@include env/schedule_shim.vs
 //@include env/sched_guard_shim.vs
 //@include env/remove_segment_shim.vs
+// the vocabulary and lemmas of slice `train_formation_update` (in a module of its own: its `max0` has the same
+// name as the one of env/transition_spec.vs)
+pub mod tfu {
+use super::*;
+use vstd::prelude::*;
+//@include env/train_formation_update_shim.vs
+} // mod tfu
+use self::tfu::*;
 
 // ---- small functions verified here (verbatim bodies) ---------------------------------------------------
 //@item model/src/base_types.rs VehicleIdx::dummy_from
@@ -103,17 +110,39 @@ impl Clone for TransitionCycle {
             && r->Ok_0.0->Some_0.wf(), // @obl C01.remove.wf
         r is Ok && r->Ok_0.0 is Some ==> r->Ok_0.0->Some_0.caches_ok(), // @obl C09.remove.caches
 //@end
-// A-stub (not verified in any slice; contract written from the code: `nodes.retain(is_service)`, Err iff
-// nothing is left, Tour::new_computing(nodes, true, network)).  Nothing is claimed about the dummy tour being
-// connected (A-path / D9: dropping the non-service nodes of a path keeps it connected only under a
-// triangle inequality of the network).
-//@item solution/src/tour.rs Tour::new_dummy : trusted
+// ---- Tour::new_dummy: verified here (verbatim body); Tour::new_computing is verified in slice tour_mod ----
+//@item solution/src/path.rs Path::consume
 //@retname r
 //@sig
-    requires network.wf(), all_in_net(&network, path.node_sequence@),
+    ensures r@ == self.node_sequence@,
+//@end
+//@item solution/src/tour.rs Tour::new_computing : trusted
+//@retname r
+//@sig
+    requires network.wf(), all_in_net(&network, nodes@), len_ok(nodes@),
+    ensures r.nodes@ == nodes@, r.is_dummy == is_dummy, r.network == network,
+        r.caches_ok(), // @obl C09.new_computing.caches
+//@end
+// Nothing is claimed about the dummy tour being connected (A-path / D9: dropping the non-service nodes of a
+// path keeps it connected only under a triangle inequality of the network).
+//@item solution/src/tour.rs Tour::new_dummy
+//@retname r
+//@sig
+    requires network.wf(), all_in_net(&network, path.node_sequence@), len_ok(path.node_sequence@),
     ensures
-        r is Ok <==> has_service(&network, path.node_sequence@),
-        r is Ok ==> r->Ok_0.nodes@ == svc_filter(&network, path.node_sequence@) && r->Ok_0.is_dummy && r->Ok_0.network == network,
+        // "Dummy tour needs to have at least one service nodes."
+        r is Ok <==> has_service(&network, path.node_sequence@), // @obl C13.new_dummy.ok_iff_some_service_trip
+        // C13: "removed service trips are handed back": exactly the service trips of the path, in order
+        r is Ok ==> r->Ok_0.nodes@ == svc_filter(&network, path.node_sequence@) && r->Ok_0.is_dummy && r->Ok_0.network == network, // @obl C13.new_dummy.exactly_the_service_trips_in_order
+        r is Ok ==> r->Ok_0.caches_ok(), // @obl C09.new_dummy.caches
+//@closure-params retain#0
+    &NodeIdx
+//@closure retain#0
+    -> (b: bool) requires network.has(*p0) ensures b == (network.sp_node(*p0) is Service)
+//@first
+        let ghost s0 = path.node_sequence@;
+//@after "nodes.retain"
+        proof { lemma_svc_filter(&network, s0, nodes@); }
 //@end
 
 // ---- Schedule: trusted stubs ----------------------------------------------------------------------------
@@ -123,34 +152,31 @@ impl Clone for TransitionCycle {
 //@sig
     ensures r == spec_replace_by_dummy(self, vehicle_idx),
 //@end
-// A-stub (not verified in any slice: `moved_nodes: impl Iterator<Item = NodeIdx>`; contract written from the
-// body, for the case "None: only delete provider" with a real provider): for every moved activity the
-// formation becomes what vehicle_replacement_in_train_formation(train_formations, provider, None, node)
-// yields (slices/admission.vs, C02.vehicle_replacement.remove_shrinks_by_one: Ok iff the provider is in the
-// formation, then the formation without its first occurrence), all other formations are unchanged.  Nothing
-// is claimed about `unserved_passengers` (nor about the u32 arithmetic that updates them).
+// verified in slice train_formation_update; contract text copied from there (R12: the parameter
+// `moved_nodes: impl Iterator<Item = NodeIdx>` is retyped to the shim iterator SeqIter<NodeIdx>)
 //@item solution/src/schedule/modifications.rs Schedule::update_train_formation : trusted
+//@param-type moved_nodes SeqIter<NodeIdx>
 //@retname r
 //@sig
     requires
-        // `self.network.node(node)`; `train_formations.get(&node).unwrap()` and the panic of
-        // vehicle_replacement_in_train_formation: every moved activity has a formation
-        all_in_net(&self.network, moved_seq(moved_nodes)),
-        forall|n: NodeIdx| moved_activity(&self.network, moved_seq(moved_nodes), n) ==> #[trigger] old(train_formations)@.contains_key(n),
-        // every node is moved once
-        moved_seq(moved_nodes).no_duplicates(),
+        self.tfu_pre(old(train_formations)@, *old(unserved_passengers), provider, receiver_vehicle, moved_nodes@),
     ensures
-        receiver_vehicle is None && provider is Some && !self.sp_is_dummy(provider.unwrap()) ==> {
-            &&& (r is Ok <==> forall|n: NodeIdx| moved_activity(&self.network, moved_seq(moved_nodes), n)
-                    ==> has_vehicle((#[trigger] old(train_formations)@[n]).formation@, provider.unwrap()))
-            &&& (r is Ok ==> {
-                &&& forall|n: NodeIdx| #[trigger] final(train_formations)@.contains_key(n) <==> old(train_formations)@.contains_key(n)
-                &&& forall|n: NodeIdx| !moved_activity(&self.network, moved_seq(moved_nodes), n) ==> #[trigger] final(train_formations)@[n] == old(train_formations)@[n]
-                &&& forall|n: NodeIdx| moved_activity(&self.network, moved_seq(moved_nodes), n)
-                        ==> (#[trigger] final(train_formations)@[n]).formation@
-                            == old(train_formations)@[n].formation@.remove(first_pos(old(train_formations)@[n].formation@, provider.unwrap()))
-            })
-        },
+        // C13: "Each schedule modification has its documented effect and nothing else … formations elsewhere … stay untouched"
+        r is Ok ==> self.formations_elsewhere_untouched(moved_nodes@, old(train_formations)@, final(train_formations)@), // @obl C13.update_train_formation.formations_elsewhere_untouched
+        // C13: "In a formation a replacing vehicle takes the replaced one's position, additions go to the tail and
+        // removals keep the order": every moved non-depot node gets the replacement of its OLD formation
+        r is Ok ==> self.moved_get_replacement(moved_nodes@, old(train_formations)@, final(train_formations)@, provider, receiver_vehicle), // @obl C13.update_train_formation.moved_nodes_get_the_replacement
+        // C02 / C10: "formation, track and depot limits hold"
+        r is Ok ==> self.grown_within_limits(moved_nodes@, final(train_formations)@, provider, receiver_vehicle), // @obl C02.update_train_formation.grown_formations_within_limits
+        // C09: "cached aggregates equal recomputation": the delta is exact
+        r is Ok ==> final(unserved_passengers).0 == old(unserved_passengers).0
+            - self.un_sum(old(train_formations)@, provider, receiver_vehicle, moved_nodes@, moved_nodes@.len() as int, false, 0)
+            + self.un_sum(old(train_formations)@, provider, receiver_vehicle, moved_nodes@, moved_nodes@.len() as int, true, 0)
+          && final(unserved_passengers).1 == old(unserved_passengers).1
+            - self.un_sum(old(train_formations)@, provider, receiver_vehicle, moved_nodes@, moved_nodes@.len() as int, false, 1)
+            + self.un_sum(old(train_formations)@, provider, receiver_vehicle, moved_nodes@, moved_nodes@.len() as int, true, 1), // @obl C09.update_train_formation.unserved_passengers_delta_exact
+        // the modification is refused iff the replacement fails for some moved non-depot node
+        r is Ok <==> self.all_ok(old(train_formations)@, provider, receiver_vehicle, moved_nodes@, moved_nodes@.len() as int), // @obl C13.update_train_formation.refused_iff_a_replacement_fails
 //@end
 // verified in slice depot_usage; contract text copied from there
 //@item solution/src/schedule/modifications.rs Schedule::update_tour_and_costs : trusted
@@ -247,6 +273,11 @@ impl Clone for TransitionCycle {
         self.vehicle_counter <= 0xffff,
         // A-counter (magnitude)
         self.shrunk_counter_ok(segment, vehicle_idx),
+        // caller-side: the precondition of the formation bookkeeping for the removed nodes (u32 magnitudes of the
+        // formations' capacities, the trips' vehicle types are types of the network, and C09 for the
+        // unserved-passenger pair: it covers the removed nodes' contribution) -- not derived from rs_ok
+        self.removes(segment, vehicle_idx) ==> self.tfu_pre(self.train_formations@, self.unserved_passengers,
+            Some(vehicle_idx), None::<Vehicle>, self.removed_nodes(segment, vehicle_idx)),
     ensures
         // "# Errors: If the vehicle is not a real vehicle an error is returned."; Tour::remove refuses (C12)
         !self.vehicles@.contains_key(vehicle_idx) ==> r is Err, // @obl C13.remove_segment.err_not_real_vehicle
@@ -276,7 +307,11 @@ impl Clone for TransitionCycle {
             && r->Ok_0.vehicle_counter == self.vehicle_counter, // @obl C13.remove_segment.no_trip_no_dummy
         self.removes(segment, vehicle_idx) && r != spec_replace_by_dummy(self, vehicle_idx) ==>
             self.formations_follow(self.removed_nodes(segment, vehicle_idx), vehicle_idx, r->Ok_0.train_formations@), // @obl C13.remove_segment.formations_elsewhere_untouched
-        // C09: costs, depot usage; C15 / C10: rotation cycles
+        // C10: the ids stay valid (in particular every dummy id is below the counter: the next id is fresh again)
+        self.removes(segment, vehicle_idx) && r != spec_replace_by_dummy(self, vehicle_idx) ==> r->Ok_0.ids_ok(), // @obl C10.remove_segment.ids_stay_valid
+        // C09: unserved passengers, costs, depot usage; C15 / C10: rotation cycles
+        self.removes(segment, vehicle_idx) && r != spec_replace_by_dummy(self, vehicle_idx) ==>
+            self.unserved_follow(self.removed_nodes(segment, vehicle_idx), vehicle_idx, r->Ok_0.unserved_passengers), // @obl C09.remove_segment.unserved_passengers_delta_exact
         self.removes(segment, vehicle_idx) && r != spec_replace_by_dummy(self, vehicle_idx) ==>
             r->Ok_0.costs == self.costs + r->Ok_0.tours@[vehicle_idx].costs - self.tours@[vehicle_idx].costs, // @obl C09.remove_segment.costs_follow_tour
         self.removes(segment, vehicle_idx) && r != spec_replace_by_dummy(self, vehicle_idx) ==>
@@ -284,70 +319,42 @@ impl Clone for TransitionCycle {
         self.removes(segment, vehicle_idx) && r != spec_replace_by_dummy(self, vehicle_idx) ==>
             self.transitions_follow(vehicle_idx, r->Ok_0.next_period_transitions@, r->Ok_0.maintenance_violation, r->Ok_0.vehicles@, r->Ok_0.tours@), // @obl C10.remove_segment.transitions_follow_new_tours
 //@first
-        broadcast use axiom_into_items_seqiter;
+        hide(Schedule::rs_ok);
+        hide(Schedule::upd_pre);
+        hide(Schedule::transitions_follow);
+        hide(Schedule::shrunk_counter_ok);
+        hide(usage_exact);
         let ghost t0 = self.tours@[vehicle_idx];
-        let ghost lo = self.seg_lo(segment, vehicle_idx);
-        let ghost hi = self.seg_hi(segment, vehicle_idx);
         let ghost removed = self.removed_nodes(segment, vehicle_idx);
         proof { if self.vehicles@.contains_key(vehicle_idx) { lemma_provider(self, vehicle_idx); } }
 //@before "match shrinked_tour"
         proof {
             assert(*tour == t0);
-            assert(0 <= lo <= hi < t0.len());
-            lemma_removed_block(&t0, lo, hi);
             assert(removed_path.node_sequence@ == removed);
         }
 //@before "self.update_train_formation"
                 let ghost nt = new_tour;
+                proof { lemma_cut(self, segment, vehicle_idx, nt); }
+//@after "self.update_train_formation"
                 proof {
-                    assert(nt.nodes@ == self.kept_nodes(segment, vehicle_idx));
-                    assert(tour_of_net(&self.network, &nt));
-                    // every removed activity is an inner node of the tour: it has a formation that lists the provider
-                    assert forall|n: NodeIdx| moved_activity(&self.network, removed, n) implies
-                        self.train_formations@.contains_key(n) && has_vehicle(self.train_formations@[n].formation@, vehicle_idx) by {
-                        let i = choose|i: int| 0 <= i < removed.len() && removed[i] == n;
-                        assert(removed[i] == t0.nodes@[lo + i]);
-                        lemma_tour_kinds(&t0, lo + i);
-                        assert(0 < lo + i < t0.nodes@.len() - 1);
-                        assert(has_vehicle(self.train_formations@[self.tours@[vehicle_idx].nodes@[lo + i]].formation@, vehicle_idx));
-                    }
-                }
-//@before "self.update_tour_and_costs"
-                proof {
-                    lemma_cost_bounds(&t0.network, nt.nodes@);
+                    lemma_implies_remove_segment_stub(self, self.train_formations@, train_formations@, Some(vehicle_idx), removed, true);
                 }
 //@before "self.update_depot_usage"
-                proof {
-                    assert(tours@ == self.tours@.insert(vehicle_idx, nt));
-                    assert(usage_exact_for(self.depot_usage@, &self.network, self.vehicles@, self.tours@, vehicle_idx));
-                }
+                proof { assert(tours@ == self.tours@.insert(vehicle_idx, nt)); }
 //@after "self.update_depot_usage"
-                proof {
-                    lemma_usage_exact_step(self.depot_usage@, depot_usage@, &self.network, self.vehicles@, self.tours@, vehicles@, tours@, vehicle_idx);
-                }
+                proof { lemma_usage_step(self, depot_usage@, tours@, vehicle_idx, nt); }
 //@before "self.update_transitions_and_violation_fast"
-                proof {
-                    assert(-counter_bound() <= tour_counter(&nt) <= counter_bound());
-                    assert(self.vehicle_ok(vehicle_idx));
-                    lemma_upd_pre(self, vehicle_idx, nt, tours@);
-                }
+                proof { lemma_upd_pre(self, vehicle_idx, nt, tours@); }
 //@before "Ok(Schedule::new("
                 proof {
+                    lemma_transitions_follow(self, vehicle_idx, next_period_transitions@, maintenance_violation, tours@);
                     assert(self.provider_shrunk(segment, vehicle_idx, tours@));
                     assert(self.other_tours_untouched(vehicle_idx, tours@));
                     assert(self.formations_follow(removed, vehicle_idx, train_formations@));
-                    assert(self.transitions_follow(vehicle_idx, next_period_transitions@, maintenance_violation, vehicles@, tours@)) by {
-                        assert forall|vt: VehicleTypeIdx| #[trigger] next_period_transitions@.contains_key(vt) && vt != self.type_of(vehicle_idx)
-                            implies !self.touches_type(vehicles@, seq![vehicle_idx], vt) by {
-                            if self.touches_type(vehicles@, seq![vehicle_idx], vt) {
-                                let i = choose|i: int| 0 <= i < seq![vehicle_idx].len() && (#[trigger] seq![vehicle_idx][i]) is Vehicle && self.eff_type(vehicles@, seq![vehicle_idx][i]) == vt;
-                                assert(seq![vehicle_idx][i] == vehicle_idx);
-                            }
-                        }
-                    }
                     if has_service(&self.network, removed) {
                         assert(self.trips_handed_back(removed, dummy_tours@, dummy_ids_sorted@));
                     }
+                    lemma_ids_stay_valid(self, vehicle_idx, tours@, dummy_tours@, dummy_ids_sorted@, vehicle_counter, has_service(&self.network, removed));
                 }
 //@end
 
